@@ -311,7 +311,7 @@ def _static_cg(
             info = jnp.where(
                 (energy_diff < absdelta) & (i >= miniter) & (info != -1), 0, info
             )
-        info = jnp.where((i >= maxiter) & (info != -1), i, info)
+        info = jnp.where((i >= maxiter) & (info < -1), i, info)
 
         d = d * jnp.maximum(0, gamma / previous_gamma) + r
 
